@@ -108,6 +108,7 @@ func vfC14(c *hx.Ctx) {
 	c.Assume("ThreadSanitizer keeps four shadow cells per 8-byte word: races on byte-granular buffers touched many times (cipher feedback buffers) can be missed; those are decided by interleaving exploration in C08")
 	c.Assume("deprecated SetStreamMode / SetDUP are excluded, as the property says")
 	c.ByUnit = true
+	c.AlwaysBound0 = true
 	// the process-wide entropy source: its AES state is written by assembly, which ThreadSanitizer does not see, so the
 	// generator is checked by interleaving exploration with scheduling points after every Unlock instead
 	vfEntropyConcurrent(c, "C14:unsynchronised-generator-state:concurrent-draws-repeat")
